@@ -569,6 +569,110 @@ def run(ck):
     if ck.tier == "thorough" and res.ok:
         for m, log in ck.leanchecker(PROPS):
             ck.violation("leanchecker:" + m, "leanchecker rejects " + m, {"log": log}, False)
+    # ------------------------------------------------------------------ spheroids and ellipsoids (numerical)
+    # acos/acosh/elliptic-integral formulas of IsotropicEshelbyTensor.ixx and the localisation tensors built on them
+    # (LocalisationTensor.ixx) cannot be traced: harness/C25/eshelby.cxx runs the real templates in double, checks/c25num.py
+    # gives an independent reference (Gauss-Legendre quadrature of the ellipsoid integrals I_i, I_ij; agreement on the
+    # unchanged code is ~1e-13) and the defining identities P0:C0 = S (same invariants in any orientation, same tensor
+    # for an inclusion along a frame axis) and A:(I + P0:(Ci-C0)) = I are evaluated on the returned tensors.
+    import c25num
+    num = ck.cxx("c25e", ["C25/eshelby.cxx"] + srcs, opt="-O1")
+    NTOL = 1e-9
+    nreq = []
+    for k in range(10 if ck.quick else 200):
+        nu_ = rng.uniform(-0.8, 0.49)
+        e_ = rng.uniform(0.05, 0.8) if k % 2 == 0 else rng.uniform(1.25, 25.0)
+        nreq.append(("axi", (nu_, e_)))
+    for k in range(8 if ck.quick else 200):
+        nu_ = rng.uniform(-0.8, 0.49)
+        ax = sorted([1.0, rng.uniform(1.3, 3.0), rng.uniform(3.9, 12.0)])
+        rng.shuffle(ax)
+        nreq.append(("ell", (nu_,) + tuple(ax)))
+    for k in range(9 if ck.quick else 150):
+        E_, nu_ = rng.uniform(1.0, 300.0), rng.uniform(-0.5, 0.45)
+        Ei_, nui_ = rng.uniform(1.0, 900.0), rng.uniform(-0.5, 0.45)
+        e_ = rng.uniform(0.05, 0.8) if k % 2 == 0 else rng.uniform(1.25, 25.0)
+        nrm = [(0.0, 0.0, 1.0), (1.0, 0.0, 0.0), (0.0, 1.0, 0.0)][k % 3] if k < 6 else tuple(rng.uniform(-1, 1) for _ in range(3))
+        nreq.append(("axiP", (E_, nu_) + nrm + (e_,)))
+        nreq.append(("axiA", (E_, nu_, Ei_, nui_) + nrm + (e_,)))
+    pn = ck.run([num], input="".join("%s %s\n" % (op, " ".join(repr(float(x)) for x in a)) for op, a in nreq), timeout=900)
+    nout = pn.stdout.splitlines()
+    n_stats = {"axi": 0, "ell": 0, "axiP": 0, "axiA": 0, "max_abs_difference": 0.0}
+    n_reported = set()
+
+    def nviol(site, what, rep_):
+        if site in n_reported:
+            return
+        n_reported.add(site)
+        ck.violation(site, what, rep_, True)
+    lastP = None
+    for k, (op, a) in enumerate(nreq):
+        M = c25num.parse36(nout[k]) if k < len(nout) else None
+        if M is None:
+            nviol("IsotropicEshelbyTensor.ixx:%s:no-answer" % op, "%s%r: no tensor returned (%s)" % (op, a, nout[k][:120] if k < len(nout) else "missing"),
+                  {"request": [op] + list(a), "answer": nout[k][:300] if k < len(nout) else None})
+            continue
+        n_stats[op] += 1
+        if op == "axi":
+            nu_, e_ = a
+            ref = c25num.eshelby(nu_, (1.0, 1.0, e_) if e_ < 1 else (e_, 1.0, 1.0))
+            d = c25num.maxdiff(M, ref)
+            n_stats["max_abs_difference"] = max(n_stats["max_abs_difference"], d)
+            if not d <= NTOL:
+                nviol("IsotropicEshelbyTensor.ixx:computeAxisymmetricalEshelbyTensor:%s" % ("oblate" if e_ < 1 else "prolate"),
+                      "computeAxisymmetricalEshelbyTensor(nu=%r, e=%r) differs from the Eshelby tensor of the spheroid (quadrature of the defining integrals) by %.3g" % (nu_, e_, d),
+                      {"nu": nu_, "e": e_, "returned": M, "reference": ref, "max_abs_difference": d, "tolerance": NTOL})
+        elif op == "ell":
+            nu_ = a[0]
+            ref = c25num.eshelby(nu_, tuple(sorted(a[1:], reverse=True)))
+            d = c25num.maxdiff(M, ref)
+            n_stats["max_abs_difference"] = max(n_stats["max_abs_difference"], d)
+            if not d <= NTOL:
+                nviol("IsotropicEshelbyTensor.ixx:computeEshelbyTensor", "computeEshelbyTensor(nu=%r, a,b,c=%r) differs from the Eshelby tensor of the ellipsoid (frame of decreasing semi-axes) by %.3g" % (nu_, a[1:], d),
+                      {"nu": nu_, "semi_axes": a[1:], "returned": M, "reference": ref, "max_abs_difference": d, "tolerance": NTOL})
+        elif op == "axiP":
+            E_, nu_, nx, ny, nz, e_ = a
+            lastP = (a, M)
+            S_ = c25num.matmul(M, c25num.iso_stiffness(E_, nu_))
+            aligned = {(0.0, 0.0, 1.0): (1.0, 1.0, e_), (1.0, 0.0, 0.0): (e_, 1.0, 1.0), (0.0, 1.0, 0.0): (1.0, e_, 1.0)}.get((nx, ny, nz))
+            ref = c25num.eshelby(nu_, aligned if aligned else (1.0, 1.0, e_))
+            if aligned:
+                d = c25num.maxdiff(S_, ref)
+                what = "P0:C0 is not the Eshelby tensor of the spheroid whose axis is the frame axis n_a"
+            else:
+                d = max(abs(x - y) for x, y in zip(c25num.trace_powers(S_), c25num.trace_powers(ref)))
+                what = "P0:C0 does not have the invariants (traces of powers) of the Eshelby tensor of the spheroid"
+            n_stats["max_abs_difference"] = max(n_stats["max_abs_difference"], d)
+            if not d <= NTOL * 10:
+                nviol("IsotropicEshelbyTensor.ixx:computeAxisymmetricalHillPolarisationTensor:%s" % ("aligned" if aligned else "oriented"),
+                      "computeAxisymmetricalHillPolarisationTensor(E=%r, nu=%r, n_a=%r, e=%r): %s (difference %.3g)" % (E_, nu_, (nx, ny, nz), e_, what, d),
+                      {"young": E_, "nu": nu_, "n_a": [nx, ny, nz], "e": e_, "returned_P0": M, "P0:C0": S_, "reference_S": ref, "difference": d})
+        elif op == "axiA":
+            E_, nu_, Ei_, nui_, nx, ny, nz, e_ = a
+            if lastP is None or lastP[0] != (E_, nu_, nx, ny, nz, e_):
+                continue
+            C0, Ci = c25num.iso_stiffness(E_, nu_), c25num.iso_stiffness(Ei_, nui_)
+            dC = [[Ci[i][j] - C0[i][j] for j in range(6)] for i in range(6)]
+            T = c25num.matmul(lastP[1], dC)
+            for i in range(6):
+                T[i][i] += 1.0
+            Id = c25num.matmul(M, T)
+            d = max(abs(Id[i][j] - (1.0 if i == j else 0.0)) for i in range(6) for j in range(6))
+            n_stats["max_abs_difference"] = max(n_stats["max_abs_difference"], d)
+            if not d <= NTOL * 100:
+                nviol("LocalisationTensor.ixx:computeAxisymmetricalEllipsoidLocalisationTensor",
+                      "computeAxisymmetricalEllipsoidLocalisationTensor(E0=%r, nu0=%r, Ei=%r, nui=%r, n_a=%r, e=%r): A:(I + P0:(Ci-C0)) differs from the identity by %.3g" %
+                      (E_, nu_, Ei_, nui_, (nx, ny, nz), e_, d),
+                      {"matrix": [E_, nu_], "inclusion": [Ei_, nui_], "n_a": [nx, ny, nz], "e": e_, "returned_A": M, "P0": lastP[1], "A:(I+P0:dC)": Id, "difference": d})
+    ck.log("spheroid/ellipsoid tensors: %s" % n_stats)
+    stats["numeric_tensor_requests"] = len(nreq)
+    stats["numeric_tensor_stats"] = n_stats
+    ck.assumptions += [
+        "spheroid / ellipsoid Eshelby, Hill polarisation and localisation tensors (acos, acosh, elliptic integrals): run in double by "
+        "harness/C25/eshelby.cxx and compared with the Gauss-Legendre quadrature of the defining integrals (checks/c25num.py, tolerance "
+        "1e-9 absolute on entries of order one, observed agreement ~1e-13; aspect ratios within 0.2 of 1 are not sampled because the closed "
+        "forms cancel there) and with the identities P0:C0 = S, A:(I+P0:(Ci-C0)) = I — numerical evidence, not a Lean proof",
+    ]
     ck.assumptions += [
         "T1: g++ instantiating the TFEL templates with verif::Sym performs the same scalar operations as with double; sym.hxx/glue.hxx/emit.py and the shared-chain emitter of checks/C25.py are correct",
         "exact field semantics: rounding, overflow, underflow not modelled",
